@@ -9,14 +9,27 @@ package main
 // byte corruptions — under the panic-recording wrapper.  Uses the producers of the C04 harness.
 
 import (
+	"crypto"
+	"crypto/ecdsa"
+	"crypto/ed25519"
+	crand "crypto/rand"
+	"crypto/rsa"
+	"crypto/sha256"
+	"crypto/sha512"
+	"encoding/asn1"
+	"encoding/json"
 	"fmt"
+	"math/big"
 	"math/rand"
 	"net/http"
 	"net/http/httptest"
 	"net/url"
+	"regexp"
 	"sort"
+	"strconv"
 	"strings"
 	"testing"
+	"time"
 
 	"github.com/Cloud-Foundations/keymaster/lib/paths"
 )
@@ -161,7 +174,240 @@ func (env *verifEnv) c10ClaimVariants(orig *symTok) []*symTok {
 	return out
 }
 
-func c10TokenStage(t *testing.T, env *verifEnv, res *verifResult, rng *rand.Rand) {
+// ---------------------------------------------------------------- header-level mutations
+//
+// The protected header of a compact JWS is attacker-controlled JSON that every token parser reads
+// BEFORE (and independently of) the signature: each registered header parameter, and an unknown
+// one, is given a value of every JSON type.  Two signature modes: junk (anyone can send it) and
+// genuine - the mutated header really signed with the server's own key (a token the server's
+// parsers accept as theirs as far as the signature goes), where the server key can sign at all.
+
+// sign header.payload with the server's key, by hand (go-jose's signer does not let a caller choose
+// the type of registered header members)
+func (env *verifEnv) c10RawSign(signingInput string) (sig []byte, alg string, ok bool) {
+	signer := env.state.Signer
+	switch pub := signer.Public().(type) {
+	case *rsa.PublicKey:
+		d := sha256.Sum256([]byte(signingInput))
+		sig, err := signer.Sign(crand.Reader, d[:], crypto.SHA256)
+		return sig, "RS256", err == nil
+	case *ecdsa.PublicKey:
+		var digest []byte
+		var h crypto.Hash
+		switch pub.Curve.Params().BitSize {
+		case 256:
+			d := sha256.Sum256([]byte(signingInput))
+			digest, h, alg = d[:], crypto.SHA256, "ES256"
+		case 384:
+			d := sha512.Sum384([]byte(signingInput))
+			digest, h, alg = d[:], crypto.SHA384, "ES384"
+		default:
+			d := sha512.Sum512([]byte(signingInput))
+			digest, h, alg = d[:], crypto.SHA512, "ES512"
+		}
+		der, err := signer.Sign(crand.Reader, digest, h)
+		if err != nil {
+			return nil, alg, false
+		}
+		var rs struct{ R, S *big.Int }
+		if _, err := asn1.Unmarshal(der, &rs); err != nil {
+			return nil, alg, false
+		}
+		n := (pub.Curve.Params().BitSize + 7) / 8
+		out := make([]byte, 2*n)
+		rs.R.FillBytes(out[:n])
+		rs.S.FillBytes(out[n:])
+		return out, alg, true
+	case ed25519.PublicKey:
+		sig, err := signer.Sign(crand.Reader, []byte(signingInput), crypto.Hash(0))
+		return sig, "EdDSA", err == nil
+	}
+	return nil, "RS256", false
+}
+
+// a JSON object with members in the given order (duplicates allowed)
+type c10Member struct {
+	name string
+	raw  string // JSON text of the value
+}
+
+func c10Object(ms []c10Member) string {
+	var parts []string
+	for _, m := range ms {
+		n, _ := json.Marshal(m.name)
+		parts = append(parts, string(n)+":"+m.raw)
+	}
+	return "{" + strings.Join(parts, ",") + "}"
+}
+
+var c10HeaderParams = []string{"alg", "typ", "kid", "cty", "crit", "jwk", "jku", "x5c", "x5t", "x5t#S256", "x5u", "b64", "nonce", "zip", "enc", "verif-unknown"}
+
+func c10JSONTypeValues() []c10Member {
+	deep := strings.Repeat("[", 300) + strings.Repeat("]", 300)
+	deepObj := strings.Repeat(`{"a":`, 200) + "1" + strings.Repeat("}", 200)
+	return []c10Member{
+		{"string", `"x"`}, {"empty string", `""`}, {"long string", `"` + strings.Repeat("A", 6000) + `"`},
+		{"number", `7`}, {"negative number", `-1`}, {"fraction", `1.5`}, {"huge number", `123456789012345678901234567890123456789012345678901234567890`}, {"huge exponent", `1e999`},
+		{"true", `true`}, {"false", `false`}, {"null", `null`},
+		{"empty array", `[]`}, {"array of strings", `["a","b"]`}, {"mixed array", `["a",1,null,{}]`}, {"array of numbers", `[1,2]`},
+		{"empty object", `{}`}, {"object", `{"a":"b"}`}, {"object of objects", `{"kty":{"a":1},"n":[],"e":null}`},
+		{"deep array", deep}, {"deep object", deepObj},
+	}
+}
+
+// header variants of one genuine token: the payload is kept, the protected header is rebuilt with one
+// member set to a value of each JSON type (replacing the genuine member, or added; also as a
+// duplicate after the genuine member)
+func (env *verifEnv) c10HeaderMemberVariants(orig *symTok, stride, phase int) []*symTok {
+	parts := strings.Split(orig.raw, ".")
+	if len(parts) != 3 {
+		return nil
+	}
+	_, alg, canSign := env.c10RawSign("probe")
+	sid := env.signerKeyID()
+	var out []*symTok
+	n := 0
+	emit := func(ms []c10Member, note string) {
+		n++
+		h := b64e([]byte(c10Object(ms)))
+		in := h + "." + parts[1]
+		// junk signature: what any unauthenticated client can send
+		if stride <= 1 || (n+phase)%stride == 0 {
+			out = append(out, newSymTok(in+"."+parts[2], sid, true, "hdr-member: "+note+" (old signature)"))
+		}
+		if canSign {
+			if sig, _, ok := env.c10RawSign(in); ok {
+				out = append(out, newSymTok(in+"."+b64e(sig), sid, false, "hdr-member: "+note+" (signed by the server key)"))
+			}
+		}
+	}
+	base := []c10Member{{"alg", `"` + alg + `"`}, {"typ", `"JWT"`}}
+	for _, name := range c10HeaderParams {
+		for _, v := range c10JSONTypeValues() {
+			var ms []c10Member
+			replaced := false
+			for _, b := range base {
+				if b.name == name {
+					ms = append(ms, c10Member{name, v.raw})
+					replaced = true
+				} else {
+					ms = append(ms, b)
+				}
+			}
+			if !replaced {
+				ms = append(ms, c10Member{name, v.raw})
+			}
+			emit(ms, name+" := "+v.name)
+		}
+		// the member twice: genuine first, confused second, and the other way round
+		for _, v := range []c10Member{{"number", `7`}, {"object", `{"a":"b"}`}, {"null", `null`}} {
+			emit(append(append([]c10Member{}, base...), c10Member{name, v.raw}), name+" duplicated, second := "+v.name)
+			emit(append([]c10Member{{name, v.raw}}, base...), name+" duplicated, first := "+v.name)
+		}
+	}
+	// the header itself of another JSON type / not JSON
+	for _, h := range []string{`[]`, `null`, `7`, `"x"`, `true`, `{}`, `{"alg":null}`, `{"alg":"` + alg + `"`, ``, `{"alg":"` + alg + `","crit":["typ"],"typ":7}`,
+		`{"alg":"` + alg + `","crit":["b64"],"b64":false}`, `{"alg":"` + alg + `","crit":[7]}`, `{"alg":"` + alg + `","typ":"JWT"}{"typ":7}`} {
+		in := b64e([]byte(h)) + "." + parts[1]
+		out = append(out, newSymTok(in+"."+parts[2], sid, true, "hdr-whole: "+h+" (old signature)"))
+		if sig, _, ok := env.c10RawSign(in); ok && canSign {
+			out = append(out, newSymTok(in+"."+b64e(sig), sid, false, "hdr-whole: "+h+" (signed by the server key)"))
+		}
+	}
+	return out
+}
+
+// ---------------------------------------------------------------- claim access: model vs getAuthInfoFromAuthJWT
+//
+// Well-signed tokens with type-confused / dropped claims: the real claim extraction (go-jose decoding
+// into authInfoJWT, then keymaster's comparisons and Audience[0]) against Model.ClaimAccess.get_auth_info
+// on the same payload.
+
+var c10IntRE = regexp.MustCompile(`^-?[0-9]+$`)
+
+func coqJSON(v interface{}) string {
+	switch x := v.(type) {
+	case nil:
+		return "JNull"
+	case bool:
+		return "(JBool " + coqBool(x) + ")"
+	case json.Number:
+		if c10IntRE.MatchString(string(x)) {
+			if i, err := strconv.ParseInt(string(x), 10, 64); err == nil {
+				return fmt.Sprintf("(JNum true %s)", coqZ(i))
+			}
+		}
+		return "(JNum false 0%Z)"
+	case string:
+		return "(JStr " + coqPacked([]byte(x)) + ")"
+	case []interface{}:
+		var el []string
+		for _, e := range x {
+			el = append(el, coqJSON(e))
+		}
+		return "(JArr [" + strings.Join(el, "; ") + "])"
+	case map[string]interface{}:
+		var ks []string
+		for k := range x {
+			ks = append(ks, k)
+		}
+		sort.Strings(ks)
+		var el []string
+		for _, k := range ks {
+			el = append(el, "("+coqPacked([]byte(k))+", "+coqJSON(x[k])+")")
+		}
+		return "(JObj [" + strings.Join(el, "; ") + "])"
+	}
+	return "JNull"
+}
+
+func (env *verifEnv) c10ClaimAccessCases(res *verifResult, toks []*symTok) (cases, idx []string) {
+	for _, tok := range toks {
+		if tok == nil || tok.tampered {
+			continue
+		}
+		parts := strings.Split(tok.raw, ".")
+		if len(parts) != 3 {
+			continue
+		}
+		pb, err := b64d(parts[1])
+		if err != nil {
+			continue
+		}
+		var payload interface{}
+		dec := json.NewDecoder(strings.NewReader(string(pb)))
+		dec.UseNumber()
+		if dec.Decode(&payload) != nil {
+			continue
+		}
+		now := time.Now().Unix()
+		var info authInfo
+		var gerr error
+		panicked := false
+		func() {
+			defer func() {
+				if p := recover(); p != nil {
+					panicked = true
+				}
+			}()
+			info, gerr = env.state.getAuthInfoFromAuthJWT(tok.raw)
+		}()
+		res.eval("claim-access|"+tok.note+"|"+fmt.Sprint(gerr == nil), gerr == nil)
+		res.bump("claim-access")
+		if panicked {
+			res.hit(verifHit{Key: "C10:panic:claim-access", Oracle: "panic", What: "getAuthInfoFromAuthJWT panicked on a well-signed token (" + tok.note + ")", Case: map[string]interface{}{"token": tok.raw, "note": tok.note}})
+		}
+		obs := "None"
+		if gerr == nil && !panicked {
+			obs = fmt.Sprintf("(Some (%s, %s, %s, %s))", coqPacked([]byte(info.Username)), coqZ(int64(info.AuthType)), coqZ(info.ExpiresAt.Unix()), coqZ(info.IssuedAt.Unix()))
+		}
+		cases = append(cases, fmt.Sprintf("(%s, %s, %s, %s)", coqJSON(payload), coqZ(now), coqBool(panicked), obs))
+		idx = append(idx, fmt.Sprintf("claim-access note=%q accepted=%v payload=%s", tok.note, gerr == nil, string(pb)))
+	}
+	return cases, idx
+}
+
+func c10TokenStage(t *testing.T, env *verifEnv, res *verifResult, rng *rand.Rand) (claimCases, claimIdx []string) {
 	p := env.c04Produce(t)
 	genuine := []*symTok{p.session, p.sessionLogin, p.cli, p.cliPage, p.storage, p.code, p.access, p.id}
 	// a second authorization code, bound to the PKCE client with a challenge
@@ -169,12 +415,21 @@ func c10TokenStage(t *testing.T, env *verifEnv, res *verifResult, rng *rand.Rand
 		genuine = append(genuine, newSymTok(code, env.signerKeyID(), false, "producer:code(pkce client)"))
 	}
 	var corpus []*symTok
+	hdrBases := 0
 	for _, g := range genuine {
 		if g == nil {
 			continue
 		}
 		corpus = append(corpus, g)
 		vars := env.c10ClaimVariants(g)
+		if g == p.session || g == p.sessionLogin || verifThorough() {
+			// every type confusion of the session token's claims (and, thorough, of every kind) goes to the claim-access model
+			cc, ci := env.c10ClaimAccessCases(res, append([]*symTok{g}, vars...))
+			claimCases, claimIdx = append(claimCases, cc...), append(claimIdx, ci...)
+		} else {
+			cc, ci := env.c10ClaimAccessCases(res, []*symTok{g})
+			claimCases, claimIdx = append(claimCases, cc...), append(claimIdx, ci...)
+		}
 		if !verifThorough() {
 			// quick: every dropped / only-claim variant, a third of the type confusions
 			var keep []*symTok
@@ -187,6 +442,14 @@ func c10TokenStage(t *testing.T, env *verifEnv, res *verifResult, rng *rand.Rand
 		}
 		corpus = append(corpus, vars...)
 		corpus = append(corpus, env.tokHeaderVariants(g.raw)...)
+		hdrBases++
+		if verifThorough() {
+			corpus = append(corpus, env.c10HeaderMemberVariants(g, 1, 0)...)
+		} else if hdrBases == 1 || (hdrBases-2)%4 == int(verifSeed())%4 {
+			// quick: the session cookie (genuine signature for every member x type, the junk-signature
+			// twin for every third) and a rotating quarter of the other kinds
+			corpus = append(corpus, env.c10HeaderMemberVariants(g, 3, int(verifSeed()))...)
+		}
 		nc := 6
 		if verifThorough() {
 			nc = 60
@@ -218,4 +481,6 @@ func c10TokenStage(t *testing.T, env *verifEnv, res *verifResult, rng *rand.Rand
 	}
 	res.Extra["token_corpus"] = len(corpus)
 	res.Extra["token_sinks"] = len(sinks)
+	res.Extra["claim_access_cases"] = len(claimCases)
+	return claimCases, claimIdx
 }
